@@ -2,7 +2,7 @@
 from core import hx, nats, hexlist, exc_kind, safe_check
 
 PROPS = ('GambitV.Props.C01', 'GambitV.C01')
-TIE = [('GambitV.Tie.Kmers', 'GambitV.Tie.Kmers')]
+TIE = [('GambitV.Tie.Kmers', 'GambitV.Tie.Kmers'), ('GambitV.Tie.PyFindKmers', 'GambitV.Tie.Py')]
 RULE = ('cases = (k, prefix, list of sequences, input type, accumulator). Streams: corpus; every length 0..|pre|+k+3 over '
         'dense tiny alphabets; random k in 1..32 (array accumulator only for k<=10/12), prefixes of length 1..6 incl. '
         'A, AA, AT, ATAT, ACGT; alphabets {prefix letters only, ACGT, ACGT+N, mixed case, arbitrary bytes}; matches planted '
@@ -71,6 +71,12 @@ def check(ctx, case):
 				pf.append(f'signature of a {len(seq)}-nt sequence ({fm}) is {sig[:8]}... ({len(sig)} k-mers), the k-mers present are {want[:8]}... ({len(want)}); plants at {[o for o, _ in case["long"]["plants"]]}')
 		case['_n'] = len(want)
 		return lines, pf
+	if 'pyfind' in case:
+		# bytes.find with raw (negative / missing / too large) bounds, bytes.upper / lower: the built-ins of the translator's run-time library
+		hay, pat, start, stop = bytes.fromhex(case['pyfind'][0]), bytes.fromhex(case['pyfind'][1]), case['pyfind'][2], case['pyfind'][3]
+		r = hay.find(pat, start) if stop is None else hay.find(pat, start, stop)
+		return [f'pyrt.find {hx(hay)} {hx(pat)} {start} {"~" if stop is None else stop} {r}',
+		        f'pyrt.upper {hx(hay)} {hx(hay.upper())}', f'pyrt.lower {hx(hay)} {hx(hay.lower())}'], []
 	if 'bfind' in case:
 		hay, pat, start, stop = bytes.fromhex(case['bfind'][0]), bytes.fromhex(case['bfind'][1]), case['bfind'][2], case['bfind'][3]
 		r = hay.find(pat, start, stop)
@@ -114,9 +120,15 @@ def check(ctx, case):
 	if case.get('find') and seqs:
 		s0 = _mk(seqs[0], form if form != 'single' else 'bytes')
 		fwd, rev = [], []
+		kis = []
 		for m in find_kmers(kspec, s0):
 			(rev if m.reverse else fwd).append(m.pos)
+			if len(kis) < 6:
+				# KmerMatch.kmer_indices against the definition generated from the current source (tie T)
+				sl = m.kmer_indices()
+				kis.append(f'pyg.ki {k} {hx(pre)} {m.pos} {1 if m.reverse else 0} {sl.start},{sl.stop}')
 		lines.append(f'c01.find {k} {hx(pre)} {hx(seqs[0])} {nats(fwd)} {nats(rev)}')
+		lines += kis
 	return lines, pyfails
 
 
@@ -252,12 +264,22 @@ def run(ctx):
 		case = {'k': 1, 'pre': '41', 'seqs': [], 'bfind': [hay.hex(), pat.hex(), start, stop]}
 		lines, pf = safe_check(check, ctx, case)
 		ctx.submit(case, lines, nontrivial=False, tags=['bfind'])
+	# the same built-in with raw bounds (negative, missing, beyond the end; empty pattern), mixed-case / non-letter bytes for upper() / lower()
+	for j in range(ctx.q(1500, 15000)):
+		n = rng.randint(0, 12)
+		hay = _rand_seq(rng, n, b'ABab\xe9@[`{')
+		pat = _rand_seq(rng, rng.randint(0, 3), b'ABab')
+		start = rng.randint(-n - 3, n + 3)
+		stop = rng.choice([None, rng.randint(-n - 3, n + 3)])
+		case = {'k': 1, 'pre': '41', 'seqs': [], 'pyfind': [hay.hex(), pat.hex(), start, stop]}
+		lines, pf = safe_check(check, ctx, case)
+		ctx.submit(case, lines, nontrivial=False, tags=['pyrt-find'])
 
 
 def shrink(ctx, failure):
 	"""Delta-debug the sequences of a failing signature case."""
 	case = dict(failure['case'])
-	if 'bfind' in case:
+	if 'bfind' in case or 'pyfind' in case:
 		return failure
 
 	def fails(c):
